@@ -16,7 +16,13 @@ import (
 
 func c18Spec(shape string) kit.Spec {
 	s := c18SpecWarm(shape)
-	s.Regs = s.Regs[:9] // (the concurrent scenarios do without the warm-up singleton and its extra watcher thread)
+	var keep []kit.Reg
+	for _, r := range s.Regs {
+		if r.ID < 9 || r.ID > 12 { // (the concurrent scenarios do without the warm-up singleton and its extra watcher thread)
+			keep = append(keep, r)
+		}
+	}
+	s.Regs = keep
 	return s
 }
 
@@ -41,6 +47,10 @@ func c18SpecWarm(shape string) kit.Spec {
 		{ID: 10, Life: "singleton", In: in, Outs: []kit.Out{{T: "D2"}}, Deps: []kit.Dep{{T: "scope"}, {T: "ctx"}, {T: "D3"}}},
 		{ID: 11, Life: "singleton", Outs: []kit.Out{{T: "D3"}}, Deps: []kit.Dep{{T: "D4"}}},
 		{ID: 12, Life: "singleton", Outs: []kit.Out{{T: "D4"}}},
+		// the built-ins as OPTIONAL parameter-object fields (they are never "registered", yet always available)
+		{ID: 13, Life: "scoped", In: true, Outs: []kit.Out{{T: "P0"}}, Name: "opt", Deps: []kit.Dep{{T: "scope", Opt: true}, {T: "ctx", Opt: true}, {T: "provider", Opt: true}, {T: "P5", Key: "absent", Opt: true}}},
+		{ID: 14, Life: "transient", In: true, InPtr: true, Outs: []kit.Out{{T: "P1"}}, Name: "opt", Deps: []kit.Dep{{T: "provider", Opt: true}, {T: "scope", Opt: true}, {T: "ctx", Opt: true}}},
+		{ID: 15, Life: "singleton", In: true, Outs: []kit.Out{{T: "P2"}}, Name: "opt", Deps: []kit.Dep{{T: "ctx", Opt: true}, {T: "scope", Opt: true}}},
 	}}
 }
 
@@ -162,7 +172,7 @@ func c18Builtins(e *Env) []Finding {
 	return out
 }
 
-var c18Gets = []Op{{Kind: "get", T: "P3"}, {Kind: "get", T: "P2"}, {Kind: "get", T: "P1"}, {Kind: "get", T: "D1"}, {Kind: "group", T: "P4", Group: "g"},
+var c18Gets = []Op{{Kind: "get", T: "P0", Key: "opt"}, {Kind: "get", T: "P1", Key: "opt"}, {Kind: "get", T: "P2", Key: "opt"}, {Kind: "get", T: "P3"}, {Kind: "get", T: "P2"}, {Kind: "get", T: "P1"}, {Kind: "get", T: "D1"}, {Kind: "group", T: "P4", Group: "g"},
 	{Kind: "get", T: "ctx"}, {Kind: "get", T: "scope"}, {Kind: "get", T: "provider"}}
 
 func c18Run(c c18Case) (*Env, []Finding) {
@@ -425,7 +435,7 @@ func c18Reserved() []Finding {
 func init() {
 	mc.Register(&mc.Check{
 		Prop:        "C18",
-		Rule:        "scope trees of three scopes under the provider in all 6 parent shapes (chain, star, forks) x per-scope context kind {cancellable with a value, nil, plain with a value, derived from the parent scope's Context(), derived from ANOTHER scope's (s1) Context()} x {positional, In-struct (value and pointer)} consumers x 3 resolution orders (one revisits scopes so caches are hit); services of every lifetime (singleton, scoped, transient, scoped initializer, transient group member, nested transient-inside-scoped, a parameter-object consumer one of whose dependencies re-entrantly resolves another parameter-object service through the injected Provider, and a singleton that during Build requests a not-yet-built singleton through a scope it creates itself) take Context / Scope / Provider; every recorded constructor argument and every direct Get of the three built-ins is compared with the scope the resolution was issued on (singletons: the provider's root scope), its Context(), FromContext of the injected context, and the root provider; context values, FromContext on the scope context and on a derived context, Scope.Provider(), synchronous cancellation propagation along the context ancestry (and non-propagation to unrelated scopes, which must stay usable after the watchers ran) are checked per scope; concurrent part (8 scenarios quick / 16 thorough): two goroutines resolving built-in consumers in two different scopes (siblings, parent/child, provider/scope) and scope creation (scoped initializer taking the built-ins) against a resolution, every schedule within the preemption bound (2 quick / 3 thorough; one less for the deep consumer), same injected-built-in oracle plus race/panic/deadlock detection; 21 registration routes for the three reserved types (plain, keyed, grouped, alias, extra return, result-object field, module entry - and the grouped variant of every batch form) must fail and leave the collection unchanged. distinct = canonical observation strings.",
+		Rule:        "scope trees of three scopes under the provider in all 6 parent shapes (chain, star, forks) x per-scope context kind {cancellable with a value, nil, plain with a value, derived from the parent scope's Context(), derived from ANOTHER scope's (s1) Context()} x {positional, In-struct (value and pointer)} consumers x 3 resolution orders (one revisits scopes so caches are hit); services of every lifetime (singleton, scoped, transient, scoped initializer, transient group member, nested transient-inside-scoped, a parameter-object consumer one of whose dependencies re-entrantly resolves another parameter-object service through the injected Provider, and a singleton that during Build requests a not-yet-built singleton through a scope it creates itself) take Context / Scope / Provider - as parameters, as In fields and as OPTIONAL In fields; every recorded constructor argument and every direct Get of the three built-ins is compared with the scope the resolution was issued on (singletons: the provider's root scope), its Context(), FromContext of the injected context, and the root provider; context values, FromContext on the scope context and on a derived context, Scope.Provider(), synchronous cancellation propagation along the context ancestry (and non-propagation to unrelated scopes, which must stay usable after the watchers ran) are checked per scope; concurrent part (8 scenarios quick / 16 thorough): two goroutines resolving built-in consumers in two different scopes (siblings, parent/child, provider/scope) and scope creation (scoped initializer taking the built-ins) against a resolution, every schedule within the preemption bound (2 quick / 3 thorough; one less for the deep consumer), same injected-built-in oracle plus race/panic/deadlock detection; 21 registration routes for the three reserved types (plain, keyed, grouped, alias, extra return, result-object field, module entry - and the grouped variant of every batch form) must fail and leave the collection unchanged. distinct = canonical observation strings.",
 		Assume:      []string{"cancellation is observed synchronously (context.WithCancel semantics)"},
 		MinOutcomes: 4,
 		Jobs: func(tier string) []mc.Job {
